@@ -210,6 +210,142 @@ class Pncbo(Contract):
 CONTRACTS += [Pncbo(op) for op in ("+", "-", "*")]
 
 
+class MaskMethod(Contract):
+    """PseudoNetCDFFile.mask(...) with threshold predicates on a file whose dimension t has ARBITRARY length: variables v (plain),
+    m (already masked) and the coordinate variable c; thresholds are arbitrary reals:
+      * an element of v / m is masked afterwards exactly when it was masked before or ANY given predicate holds for it
+        (greater: x > g, greater_equal: x >= g, less: x < l, less_equal: x <= l, equal: x == e), inclusive bounds inclusive;
+      * unmasked elements keep their values; the coordinate variable is copied unmasked; attributes carried; the input
+        (values and masks) is unchanged and the result owns fresh buffers."""
+    prop = 'C06'
+    target = F + '::PseudoNetCDFFile.mask'
+    max_paths = 60
+
+    def __init__(self, preds):
+        self.preds = tuple(preds)
+        self.name = 'mask[%s]' % ','.join(preds)
+
+    def inputs(self, ctx, I):
+        n = ctx.fresh('nt')
+        self.n = n
+        mod = frontend.load('core/_variables.py')
+        cls = I.classref(mod, mod.find('PseudoNetCDFVariable')[0])
+        mcls = I.classref(mod, mod.find('PseudoNetCDFMaskedVariable')[0])
+
+        def var(name, masked=False):
+            a = sym_array(name, (n,), 'f')
+            a.cls = mcls if masked else cls
+            a.attrs.update(dimensions=('t',), _ncattrs=('units',), units='ppb')
+            if masked:
+                a.mask = sym_array(name + '_mask', (n,), 'b')
+            return a
+        self.vars = dict(v=var('v'), m=var('m', True), c=var('c'))
+        self.pre = {k: a.buf.get for k, a in self.vars.items()}
+        self.mpre = self.vars['m'].mask.buf.get
+        f = pnc_file(I, dimensions={'t': dim_obj(I, 't', n, unlimited=True)}, variables=dict(self.vars), attrs=dict(title='src'))
+        f.attrs['_operator_exclude_vars'] = ('c',)
+        self.f = f
+        self.thr = {p: ctx.fresh('thr_' + p, 'Real') for p in self.preds}
+        return dict(self=f, kw=dict(self.thr))
+
+    def call_args(self, inp):
+        return [inp['self']], dict(inp['kw'])
+
+    def requires(self, inp):
+        return ge(self.n, 1)
+
+    def small(self, inp):
+        return le(self.n, 2)
+
+    def hit(self, x):
+        cmp = dict(greater=gt, greater_equal=ge, less=lt, less_equal=le, equal=eq)
+        return sym.Or(*[cmp[p](x, t) for p, t in self.thr.items()])
+
+    def ensures(self, inp, res, I):
+        if not hasattr(res, 'attrs') or 'variables' not in res.attrs:
+            return [('returns-file', False)]
+        vs = res.attrs['variables']
+        out = [('is-a-new-file', res is not self.f), ('variables', list(vs.keys()) == ['v', 'm', 'c']), ('file-attributes', res.attrs.get('title') == 'src')]
+        if list(vs.keys()) != ['v', 'm', 'c'] or not all(isinstance(x, SArr) for x in vs.values()):
+            return out + [('variables-are-arrays', False)]
+        i = z3.Int('i')
+        rng = And(ge(i, 0), lt(i, self.n))
+        V, M, C = vs['v'], vs['m'], vs['c']
+        xv, xm, m0 = self.pre['v']((i,)), self.pre['m']((i,)), self.mpre((i,))
+        vmask = V.mask.get(i) if V.mask is not None else False
+        mmask = M.mask.get(i) if M.mask is not None else False
+        out += [('shapes', And(*[eq(x.shape[0], self.n) for x in (V, M, C)])),
+                ('v masked exactly where a predicate holds', Implies(rng, eq(vmask, self.hit(xv)))),
+                ('m masked exactly where it was masked or a predicate holds', Implies(rng, eq(mmask, sym.Or(m0, self.hit(xm))))),
+                ('unmasked elements keep their values', Implies(rng, And(Implies(sym.Not(vmask), eq(V.get(i), xv)), Implies(sym.Not(mmask), eq(M.get(i), xm))))),
+                ('coordinate variable copied unmasked', Implies(rng, And(eq(C.get(i), self.pre['c']((i,))), sym.Not(C.mask.get(i)) if C.mask is not None else True))),
+                ('attributes carried', all(x.attrs.get('units') == 'ppb' and tuple(x.attrs.get('dimensions', ())) == ('t',) for x in (V, M, C))),
+                ('fresh-buffers', all(x.buf is not a.buf for x in (V, M, C) for a in self.vars.values())),
+                ('input-unchanged', Implies(rng, And(*[eq(a.buf.get((i,)), self.pre[k]((i,))) for k, a in self.vars.items()], eq(self.vars['m'].mask.buf.get((i,)), m0))))]
+        return out
+
+
+    # -- replay on the real function -----------------------------------------------------------------------------------
+    def concretize(self, model, inp):
+        from pyvc.verify import model_value
+        return dict(preds=list(self.preds), n=model_value(model, self.n), thr={p: model_value(model, t) for p, t in self.thr.items()},
+                    v=self.vars['v'].model_value(model), m=self.vars['m'].model_value(model), mmask=self.vars['m'].mask.model_value(model))
+
+    def concretize_without_model(self, inp):
+        return dict(preds=list(self.preds), n=0, thr={p: 1.0 for p in self.preds})
+
+    def replay(self, c):
+        import numpy as np
+        P = import_real()
+        thr = {p: float(fl(c['thr'][p])) for p in c['preds']}
+        cands = []
+        try:
+            vv, mm, mk = (c[k]['values'] for k in ('v', 'm', 'mmask'))
+            cands.append((np.array([float(fl(x)) for x in vv]), np.array([float(fl(x)) for x in mm]), np.array([bool(x) for x in mk])))
+        except Exception:
+            pass
+        # canonical data: every threshold itself, just below and just above it
+        pts = sorted({t + d for t in thr.values() for d in (-1., 0., 1.)})
+        cands.append((np.array(pts), np.array(pts[::-1]), np.array([i % 3 == 0 for i in range(len(pts))])))
+        cmp = dict(greater=np.greater, greater_equal=np.greater_equal, less=np.less, less_equal=np.less_equal, equal=np.equal)
+        out = None
+        for v, m, mk in cands:
+            if len(v) == 0:
+                continue
+            f = P.PseudoNetCDFFile()
+            f.createDimension('t', len(v)).setunlimited(True)
+            f.title = 'src'
+            f.createVariable('v', 'd', ('t',), values=v.copy(), units='ppb')
+            f.createVariable('m', 'd', ('t',), values=np.ma.masked_array(m.copy(), mask=mk.copy()), units='ppb')
+            f.createVariable('c', 'd', ('t',), values=np.arange(len(v), dtype='d'), units='ppb')
+            f._operator_exclude_vars = ('c',)
+            try:
+                g = f.mask(**thr)
+            except Exception as e:
+                return False, dict(raised=type(e).__name__, message=str(e)[:200], thresholds=thr)
+            hit = lambda x: np.logical_or.reduce([cmp[p](x, t) for p, t in thr.items()])
+            gv, gm = np.ma.asarray(g.variables['v'][...]), np.ma.asarray(g.variables['m'][...])
+            bad = []
+            if not np.array_equal(np.ma.getmaskarray(gv), hit(v)):
+                bad.append('mask of v %r expected %r' % (np.ma.getmaskarray(gv).tolist(), hit(v).tolist()))
+            if not np.array_equal(np.ma.getmaskarray(gm), mk | hit(m)):
+                bad.append('mask of m %r expected %r' % (np.ma.getmaskarray(gm).tolist(), (mk | hit(m)).tolist()))
+            if not np.array_equal(gv.compressed(), v[~hit(v)]) or not np.array_equal(gm.compressed(), m[~(mk | hit(m))]):
+                bad.append('values of unmasked elements')
+            if np.ma.getmaskarray(g.variables['c'][...]).any():
+                bad.append('coordinate masked')
+            if not np.array_equal(np.asarray(f.variables['v'][...]), v) or not np.array_equal(np.ma.getmaskarray(f.variables['m'][...]), mk):
+                bad.append('input modified')
+            r = (not bad, dict(thresholds=thr, v=v.tolist(), m=m.tolist(), m_mask=mk.tolist(), failed=bad))
+            if bad:
+                return r
+            out = out or r
+        return out
+
+
+CONTRACTS += [MaskMethod(p) for p in (('greater',), ('less_equal',), ('greater', 'greater_equal'), ('greater', 'less'), ('equal', 'less', 'greater_equal'))]
+
+
 def bounded(tier, seed):
     from rtc import harness as H
     import numpy as np
@@ -358,12 +494,14 @@ def bounded_replay(p):
 
 META = dict(
     level='other',
-    technique='operator dispatch (16 methods) and pncbo itself (+, -, * on plain and masked variables of arbitrary length; eval of the concrete operator text) proved by '
-              'pyvc; the other operators, eval() and mask() value semantics by bounded run-time contract against numpy.ma',
+    technique='operator dispatch (16 methods), pncbo itself (+, -, * on plain and masked variables of arbitrary length; eval of the concrete operator text) and '
+              'mask() with threshold predicates proved by pyvc; the other operators, eval() and the remaining mask() options by bounded run-time contract against numpy.ma',
     text='Proved: each of the 16 operator methods calls pncbo exactly once with the operator string of the table, receiver left, argument right and the '
          "receiver's coordinate-exclusion list, and returns its result; pncbo for + - * on files of ANY length: every element is left op right, a masked variable is masked "
          'exactly where either operand is, coordinate variables and variables missing on the right are copies of the left, units text, attributes, fresh buffers, both inputs '
-         'unchanged. Bounded: all 16 operators, division by zero / invalid results, eval and all mask() predicate combinations against numpy.ma on snapshots.',
+         'unchanged; mask() with greater / greater_equal / less / less_equal / equal (alone and combined, ARBITRARY thresholds, any length): an element is masked afterwards '
+         'exactly when it was masked before or any given predicate holds (inclusive bounds inclusive), unmasked elements keep their values, the coordinate variable stays '
+         'unmasked, input unchanged. Bounded: all 16 operators, division by zero / invalid results, eval and all 2^6 x 2 mask() option combinations against numpy.ma on snapshots.',
     note='numpy element-wise arithmetic, masked_invalid / masked_where (copying) and getmaskarray are trusted models; NaN/inf production (/, **, %) and comparisons are bounded only.',
     assumptions=['numpy.ma semantics (oracle of the bounded part; masked_where/masked_invalid/getmaskarray models of the proof part)'],
     explanation='mixed: proof obligations for dispatch and for pncbo(+,-,*) + bounded exploration for the remaining value semantics')
